@@ -467,8 +467,11 @@ func (c *cluster) apply(e event) bool {
 		touched = e.b
 	case "tick":
 		time.Sleep(time.Second)
+	case "jump":
+		time.Sleep(retention - time.Second)
 	}
 	synctest.Wait()
+	c.reconcile()
 	if touched >= 0 {
 		drained := c.drain(touched)
 		// forwarding: every entry that changed on the touched node must leave in some broadcast
@@ -488,6 +491,37 @@ func (c *cluster) apply(e event) bool {
 		}
 	}
 	return true
+}
+
+// reconcile lets the reference follow the one freedom the implementation has: a tombstone that is at least
+// as old as the retention may be gone (it is discarded lazily, when the node next merges something). A
+// tombstone missing before that age is a violation ("discarded only once older than the retention").
+func (c *cluster) reconcile() {
+	now := time.Now().Unix()
+	for i, n := range c.nodes {
+		var real refState
+		for id, e := range n.ref {
+			if !e.tomb {
+				continue
+			}
+			if real == nil {
+				real = c.localState(i)
+			}
+			if _, ok := real[id]; ok {
+				continue
+			}
+			if age := now - e.ts; age < int64(retention/time.Second) {
+				if c.problem == "" {
+					c.problem = fmt.Sprintf("node %d no longer holds the tombstone of %s although it is only %d s old (retention %v)", i, id, age, retention)
+				}
+				continue
+			}
+			delete(n.ref, id)
+			if strings.HasSuffix(id, ".state") { // a partition's lock register goes with the partition
+				delete(n.ref, strings.TrimSuffix(id, ".state")+".lock")
+			}
+		}
+	}
 }
 
 // check compares every node with the reference.
@@ -577,6 +611,7 @@ type scenario struct {
 	partition bool   // partition-ring codec and operations instead of the instance ring
 	depth     int
 	ticks     int
+	jumps     int // clock jumps of (retention - 1 s): with the 1 s ticks, tombstones reach ages around the retention
 }
 
 func (sc scenario) events(poolSize int) []event {
@@ -597,6 +632,9 @@ func (sc scenario) events(poolSize int) []event {
 		}
 	}
 	evs = append(evs, event{kind: "tick"})
+	if sc.jumps > 0 {
+		evs = append(evs, event{kind: "jump"})
+	}
 	return evs
 }
 
@@ -649,10 +687,11 @@ func bfs(t *testing.T, rep *ev.Report, prop string, sc scenario, converge bool, 
 		hist  []event
 		pool  int
 		ticks int
+		jumps int
 	}
 	seen := map[string]bool{}
 	var mu sync.Mutex
-	frontier := []item{{nil, 0, 0}}
+	frontier := []item{{nil, 0, 0, 0}}
 	for lvl := 1; lvl <= sc.depth; lvl++ {
 		type job struct {
 			it item
@@ -661,7 +700,7 @@ func bfs(t *testing.T, rep *ev.Report, prop string, sc scenario, converge bool, 
 		var jobs []job
 		for _, it := range frontier {
 			for _, e := range sc.events(it.pool) {
-				if e.kind == "tick" && it.ticks >= sc.ticks {
+				if e.kind == "tick" && it.ticks >= sc.ticks || e.kind == "jump" && it.jumps >= sc.jumps {
 					continue
 				}
 				jobs = append(jobs, job{it, e})
@@ -714,7 +753,11 @@ func bfs(t *testing.T, rep *ev.Report, prop string, sc scenario, converge bool, 
 						if j.e.kind == "tick" {
 							tk++
 						}
-						next = append(next, item{h, r.pool, tk})
+						jp := j.it.jumps
+						if j.e.kind == "jump" {
+							jp++
+						}
+						next = append(next, item{h, r.pool, tk, jp})
 						rep.State(1)
 						if strings.Contains(r.canon, "LEFT") || strings.Contains(r.canon, "Deleted") {
 							rep.Distinct(sc.name + "|" + r.canon)
@@ -758,6 +801,9 @@ func scenariosC04() []scenario {
 	xAlphabet := []step{{0, opReg, "x"}, {0, opHeartbeat, "x"}, {0, opRemove, "x"}, {1, opRemove, "x"}}
 	scs := []scenario{
 		{name: "x-on-2-nodes", nodes: 2, depth: d, ticks: 3, maxCAS: k, script: xAlphabet},
+		// around the retention: one jump of retention-1 s plus the ticks put tombstones at ages 9..12 s
+		{name: "x-around-retention", nodes: 2, depth: d, ticks: 3, jumps: 1, maxCAS: 3, script: []step{{0, opReg, "x"}, {0, opRemove, "x"}, {1, opRemove, "x"}}},
+		{name: "owner-around-retention", nodes: 2, depth: d, ticks: 2, jumps: 1, maxCAS: 3, partition: true, script: []step{{0, "add-partition", ""}, {0, "add-owner", "o"}, {0, "remove-owner", "o"}, {0, "remove-partition", ""}}},
 		{name: "x-leaving-with-bystander", nodes: 2, depth: d, ticks: 1, maxCAS: k, script: []step{{0, opReg, "x"}, {1, opReg, "y"}, {0, opLeave, "x"}, {0, opRemove, "x"}, {1, opRemove, "x"}}},
 		// partition ring: owner and partition tombstones (the owner's lifecycler writes on node 0; removals anywhere)
 		{name: "partition-owner-removal", nodes: 2, depth: d, ticks: 1, maxCAS: k, partition: true, script: []step{{0, "add-partition", ""}, {0, "add-owner", "o"}, {0, "remove-owner", "o"}, {1, "remove-owner", "o"}}},
